@@ -1,5 +1,5 @@
 """
-Source fingerprints (DESIGN.md 3.1): an `ast.dump` hash of every function, method and class-level assignment of the modelled
+Source fingerprints (DESIGN.md 3.1): a hash of the `ast.unparse` text of every function, method and class-level assignment of the modelled
 modules of the working tree.  NEVER used to raise an alarm - a harmless rewrite changes a fingerprint too.  Used to (1) widen
 the budget of a run when the source differs from the one the model was last validated against (harness/fingerprints.json,
 refreshed with `python harness/fingerprint.py --update` whenever /repo gets a commit of ours), and (2) name in the evidence what
@@ -20,7 +20,9 @@ MODULES = ['block_token.py', 'block_tokenizer.py', 'span_token.py', 'span_tokeni
 
 
 def _h(node):
-    return hashlib.sha256(ast.dump(node, annotate_fields=False, include_attributes=False).encode()).hexdigest()[:12]
+    # the unparsed source, not ast.dump: the dump format differs between Python versions, the unparsed text does not (comments and
+    # layout are gone either way)
+    return hashlib.sha256(ast.unparse(node).encode()).hexdigest()[:12]
 
 
 def compute(repo):
